@@ -23,7 +23,9 @@ from common.check import PropertyCheck, Skip, hx, unhx
 from common.world import World
 
 from mitmproxy import certs
+import mitmproxy.options
 from mitmproxy import http as mhttp
+from mitmproxy.addons import script
 from mitmproxy.addons import clientplayback, mapremote, next_layer, proxyauth, proxyserver, tlsconfig, upstream_auth
 from mitmproxy.test import tflow
 from common.paths import WORK
@@ -233,6 +235,44 @@ class Conn:
         return out
 
 
+def default_chain():
+    """fresh instances of mitmproxy's default addons, in source order"""
+    from mitmproxy import addons as A
+    chain = A.default_addons()
+    return chain, {type(a).__name__: a for a in chain}
+
+
+def rewrite_script():
+    """a user script that redirects plain-http requests for rws.example to https (in the `request` hook)"""
+    p = os.path.join(WORK, "c24", "rewrite_https.py")
+    if not os.path.exists(p):
+        os.makedirs(os.path.dirname(p), exist_ok=True)
+        tmp = p + ".%d" % os.getpid()
+        with open(tmp, "w") as f:
+            f.write("def request(flow):\n"
+                    "    if flow.request.pretty_host == 'rws.example' and flow.request.scheme == 'http':\n"
+                    "        flow.request.scheme = 'https'\n"
+                    "        flow.request.port = 443\n")
+        os.replace(tmp, p)
+    return p
+
+
+def addon_order_lean(ns: str) -> str:
+    """the order of mitmproxy.addons.default_addons() (hooks run in this order), read from the source"""
+    import ast, inspect, textwrap
+    from mitmproxy import addons as A
+    tree = ast.parse(textwrap.dedent(inspect.getsource(A.default_addons)))
+    names = []
+    for node in ast.walk(tree):
+        if isinstance(node, ast.Return) and isinstance(node.value, ast.List):
+            for el in node.value.elts:
+                f = el.func if isinstance(el, ast.Call) else el
+                names.append(f.attr if isinstance(f, ast.Attribute) else getattr(f, "id", "?"))
+    if not names: raise RuntimeError("default_addons(): no literal list found")
+    return (f"/-- class names of mitmproxy.addons.default_addons(), in order (hooks run in this order) -/\n"
+            f"def addonOrder : List String := [{', '.join(chr(34) + n + chr(34) for n in names)}]\n")
+
+
 def quiet_logging():
     """every test master installs a log handler bound to its own (soon closed) event loop; an addon error logged by
     addonmanager.safecall would then raise from a stale handler and abort the hook chain — drop those handlers"""
@@ -241,6 +281,9 @@ def quiet_logging():
     root = logging.getLogger()
     for h in list(root.handlers):
         if isinstance(h, MitmLogHandler): root.removeHandler(h)
+    lg = logging.getLogger("mitmproxy")
+    if not any(isinstance(h, logging.NullHandler) for h in lg.handlers):
+        lg.addHandler(logging.NullHandler()); lg.propagate = False      # safecall's error reports are not observables
 
 
 class Check(PropertyCheck):
@@ -264,7 +307,9 @@ class Check(PropertyCheck):
                   "stack with the real NextLayer, UpstreamAuth, Proxyserver (and TlsConfig) addons: per step the place, kind and "
                   "credential field of every request head written upstream (TLS sessions decrypted by an in-memory origin), the "
                   "client-side outcome, and — predicted, not taken from observation — flow.server_conn's address, tls, sni, via, its "
-                  "order of first use and whether it was reused.")
+                  "order of first use and whether it was reused. All cases run through the REAL default addon chain "
+                  "(mitmproxy.addons.default_addons(), source order; rewrites by the real MapRemote and by a user script loaded at "
+                  "ScriptLoader's place); the assumed order is regenerated into Gen/C24.lean and proved by addon_order_as_assumed.")
     level_note = ("trusted: Lean kernel; hand model tied differentially (validated, not verified). Oracle-only (no model): client "
                   "replay through the real clientplayback.ReplayHandler (every running mode x recorded mode; a replay in upstream mode "
                   "of a flow recorded in another mode trips an assertion in HttpLayer.Start and writes nothing) and cases with a "
@@ -300,11 +345,16 @@ class Check(PropertyCheck):
                     "mitmproxy.proxy.layers.http:HttpStream.make_server_connection",
                     "mitmproxy.proxy.layers.http:HttpStream.state_wait_for_request_headers",
                     "mitmproxy.addons.tlsconfig:TlsConfig.tls_start_server", "mitmproxy.addons.clientplayback:ReplayHandler.__init__",
-                    "mitmproxy.addons.mapremote:MapRemote.request", "mitmproxy.addons.next_layer:NextLayer._next_layer", "mitmproxy.addons.next_layer:NextLayer._setup_explicit_http_proxy"]
+                    "mitmproxy.addons.mapremote:MapRemote.request", "mitmproxy.addons:default_addons", "mitmproxy.addons.next_layer:NextLayer._next_layer", "mitmproxy.addons.next_layer:NextLayer._setup_explicit_http_proxy"]
     trusted_base = ["harness/common/world.py as a stand-in for proxy/server.py's command interpreter",
                     "CPython ssl / OpenSSL as the in-memory TLS origin that decrypts what mitmproxy writes into TLS sessions",
                     "classification of upstream bytes: a connection opened to the upstream proxy's address carries direct traffic until its CONNECT is answered, tunnelled traffic afterwards"]
     parallel = False
+
+    def translate(self):
+        src = ("-- generated by harness/c24.py translate() from the source of mitmproxy.addons.default_addons(); do not edit\n"
+               "namespace MitmVerif.Gen.C24\n" + addon_order_lean("C24") + "end MitmVerif.Gen.C24\n")
+        return {"MitmVerif/Gen/C24.lean": src}
 
     def setup(self, tier):
         self.parallel = tier == "thorough"
@@ -379,8 +429,8 @@ class Check(PropertyCheck):
             seen_connect = set()
             for st in steps:
                 if st["k"] in ("c80", "c443"): seen_connect.add(st["c"])
-                elif st["k"] == "http" and is_proxy_mode(conns[st["c"]]) and st["c"] not in seen_connect and rng.chance(0.15):
-                    st["k"] = "rw"
+                elif st["k"] == "http" and is_proxy_mode(conns[st["c"]]) and st["c"] not in seen_connect and rng.chance(0.2):
+                    st["k"] = rng.pick(["rw", "rws"])
             # the upstream side drops (server FIN / error / idle close) between requests, inside tunnels and between them
             if rng.chance(0.35):
                 for _ in range(rng.randint(1, 2)):
@@ -409,7 +459,8 @@ class Check(PropertyCheck):
             return b"CONNECT " + t + b" HTTP/1.1\r\nHost: " + t + b"\r\n\r\n"
         host = b"other.example" if k == "http2" else (b"s%d.example" % idx if k == "https" else
                                                       b"s999.example" if k == "https2" else
-                                                      b"rw.example" if k == "rw" else b"origin.example")
+                                                      b"rw.example" if k == "rw" else
+                                                      b"rws.example" if k == "rws" else b"origin.example")
         if is_proxy_mode(mode) and not cn.tunnel:
             scheme = b"https" if k in ("https", "https2") else b"http"
             return b"GET " + scheme + b"://" + host + b"/r%d HTTP/1.1\r\nHost: " % idx + host + b"\r\n\r\n"
@@ -430,30 +481,21 @@ class Check(PropertyCheck):
         return ws
 
     def impl(self, case):
-        ua = upstream_auth.UpstreamAuth()
-        addons = [proxyserver.Proxyserver(), next_layer.NextLayer()]        # default addon order
-        pa = None
-        if case.get("pauth"):
-            pa = proxyauth.ProxyAuth(); addons.insert(0, pa)
-        if case.get("op") == "replay":
-            need_tls = case["scheme"] == "https"
-            steps = []
-        else:
-            steps = case["steps"]
-            need_tls = any(st["k"] in ("https", "https2", "rw") and is_proxy_mode(case["conns"][st["c"]]["mode"]) for st in steps)
-        mr = None
-        if any(st["k"] == "rw" for st in steps):
-            mr = mapremote.MapRemote(); addons.append(mr)
-        if need_tls: addons.append(tlsconfig.TlsConfig())
-        addons.append(ua)
-        with taddons.context(*addons) as tctx:
+        # the flows run through the REAL default addon chain, in the order mitmproxy.addons.default_addons() gives it
+        chain, by = default_chain()
+        ua, pa0, mr, sl = by["UpstreamAuth"], by["ProxyAuth"], by["MapRemote"], by["ScriptLoader"]
+        pa = pa0 if case.get("pauth") else None
+        steps = [] if case.get("op") == "replay" else case["steps"]
+        ensure_confdir()
+        with taddons.context(*chain, loadcore=False) as tctx:
             quiet_logging()
+            tctx.options.update(confdir=CONFDIR, ssl_insecure=True, http2=False)
             if pa: tctx.configure(pa, proxyauth=self.CLIENT_CRED)
-            if mr: tctx.configure(mr, map_remote=["|http://rw.example/|https://rw.example/"])
+            if any(st["k"] == "rw" for st in steps):
+                tctx.configure(mr, map_remote=["|http://rw.example/|https://rw.example/"])
+            if any(st["k"] == "rws" for st in steps):
+                sl.addons.append(script.Script(rewrite_script(), False))     # a user script, at ScriptLoader's place in the chain
             for k, v in (case.get("opts") or {}).items(): setattr(tctx.options, k, v)
-            if need_tls:
-                ensure_confdir()
-                tctx.options.update(confdir=CONFDIR, ssl_insecure=True, http2=False)
             tctx.configure(ua, upstream_auth=self.cred_of(case) if case["auth"] else None)
             if case.get("op") == "replay":
                 return self.run_replay(case, tctx, ua)
@@ -550,6 +592,7 @@ class Check(PropertyCheck):
         if name == "other.example": return 2
         if name == "target.example": return 3
         if name == "rw.example": return 4
+        if name == "rws.example": return 5
         m = re.fullmatch(r"([st])(\d+)\.example", name)
         return (100 if m.group(1) == "s" else 200) + int(m.group(2))
 
@@ -561,8 +604,9 @@ class Check(PropertyCheck):
             elif k == "drop": evs.append(f"{st['c']}/drop")
             elif k in ("c80", "c443"): evs.append(f"{st['c']}/connect/{200 + idx}/{80 if k == 'c80' else 443}")
             else:
-                tls = k in ("https", "https2", "rw")
-                host = 2 if k == "http2" else (100 + idx if k == "https" else 1099 if k == "https2" else 4 if k == "rw" else 1)
+                tls = k in ("https", "https2", "rw", "rws")
+                host = 2 if k == "http2" else (100 + idx if k == "https" else 1099 if k == "https2" else 4 if k == "rw" else
+                                                5 if k == "rws" else 1)
                 evs.append(f"{st['c']}/req/{host}/{443 if tls else 80}/{1 if tls else 0}")
         return " ".join(evs)
 
@@ -570,7 +614,7 @@ class Check(PropertyCheck):
         evs = []
         for st in case["steps"]:
             if st["k"] == "opt": evs.append("A1" if st["auth"] else "A0")
-            else: evs.append(f"{st['c']}/{'https' if st['k'] in ('rw', 'https2') else st['k']}")
+            else: evs.append(f"{st['c']}/{'https' if st['k'] in ('rw', 'rws', 'https2') else st['k']}")
         return " ".join(evs)
 
     def conn_token(self, c):
@@ -584,7 +628,7 @@ class Check(PropertyCheck):
         routing model knows about reuse, the Dest-level model is not compared then"""
         seen = set()
         for st in case["steps"]:
-            if st["k"] in ("https2", "rw"):
+            if st["k"] in ("https2", "rw", "rws"):
                 if (st["c"], st["k"]) in seen: return True
                 seen.add((st["c"], st["k"]))
         return False
